@@ -25,3 +25,14 @@ unsigned g_mes_cnt; size32_t g_mes_start, g_mes_len; size16_t g_mes_idx;   /* gh
 size_t g_ri, g_rc; bool g_copy_ok;   /* ghost: copy number and character for dfa_builder::rep */
 /* char_subset(char_range(c)): the set itself is irrelevant to the allocation contracts (decoding is unit regex_decode) */
 static inline struct char_subset vx_char_subset_of_range(char a, char b) { struct char_subset s; return s; }
+
+/* ---- dfa_builder::merge ---- */
+/* stdex::cbitset<N>::test / set on merged_from (N <= 64: one word); the members themselves are under contract in unit stdex.
+   check_idx throws for idx >= N: asserted here, i.e. merge never runs into that throw */
+static inline size_t vx_mf_idx(size_t idx) { __CPROVER_assert(idx < b_sm.N, "cbitset<N>::check_idx: state index below N"); return idx; }
+#define VX_MF_TEST(bs, idx) ((((bs).data[0] >> vx_mf_idx(idx)) & 1) != 0)
+#define VX_MF_SET(bs, idx) ((bs).data[0] |= ((uint64_t)1 << vx_mf_idx(idx)))
+size_t g_c;   /* ghost-chosen input byte */
+/* every transition of every state in use is none or a state in use */
+#define VX_WF_T (__CPROVER_forall { size_t vq_ws; (vq_ws < PH_DFA) ==> __CPROVER_forall { size_t vq_wc; (vq_wc < 256) ==> (vq_ws < b_sm.current_size ==> \
+   (b_sm.the_data[vq_ws].transitions[vq_wc] == uninitialized16 || b_sm.the_data[vq_ws].transitions[vq_wc] < b_sm.current_size)) } })
